@@ -173,8 +173,7 @@ def _bytes_len(t):
 
 
 # ------------------------------------------------------------------ C11.2
-def c11_2(ctx):
-    R = "C11.2"
+def c11_2(ctx, R="C11.2"):
     b = U.body(ctx, R, "chia_consensus::sanitize_int::sanitize_uint")
     if not b:
         return
